@@ -178,17 +178,9 @@ theorem updateLoop_inv (now : Int) (spec document nowV : Val) (multi : Bool) (c0
 /-- the `_id` of the upsert seed and the collection after a possible id generation -/
 def upsertIdv (ss dfs : Fields) (c3 : Coll) : Val × Coll :=
   match dget "_id" ss with
-  | some v => (match v with
-    | .null => (match dget "_id" dfs with
-      | some w => (match w with
-        | .null => (Val.oid c3.nextOid, { c3 with nextOid := c3.nextOid + 1 })
-        | _ => (w, c3))
-      | none => (Val.oid c3.nextOid, { c3 with nextOid := c3.nextOid + 1 }))
-    | _ => (v, c3))
+  | some v => (v, c3)
   | none => (match dget "_id" dfs with
-    | some w => (match w with
-      | .null => (Val.oid c3.nextOid, { c3 with nextOid := c3.nextOid + 1 })
-      | _ => (w, c3))
+    | some w => (w, c3)
     | none => (Val.oid c3.nextOid, { c3 with nextOid := c3.nextOid + 1 }))
 
 theorem upsertIdv_docs (ss dfs : Fields) (c3 : Coll) : (upsertIdv ss dfs c3).2.docs = c3.docs := by
